@@ -200,40 +200,51 @@ theorem bracket_scr2 {v : Variant} {s : Sess} {c : Client} {scr2 scr3 : Screen} 
 
 /-! ### `sendUpdate` -/
 
-/-- the two ways rfbUpdateClient/rfbSendFramebufferUpdate can go -/
+/-- the three ways rfbUpdateClient/rfbSendFramebufferUpdate can go: not called; called but
+"nothing to send" (only `copyRegion` has been reduced by `modifiedRegion`); an update is sent -/
 theorem sendUpdate_cases {v : Variant} {s s' : Sess} {c : Client} {o : Option UpdObs}
     (h : sendUpdate v s c = some (s', o)) :
-    (willSend s c = false ∧ s' = s ∧ o = none) ∨
+    (updCalled s c = false ∧ s' = s ∧ o = none) ∨
+    (updCalled s c = true ∧ updProceeds s c = false ∧ o = none ∧
+      s' = { s with clients := s.clients.map fun d => if d.id == c.id then { c with copy := copyLeft s c } else d }) ∨
     (willSend s c = true ∧ ∃ scr2 scr3 m obs, bracket v s c = some (scr2, scr3, m) ∧ s'.scr = scr3 ∧
       o = some obs ∧ obs.upd = updRegion s c ∧ obs.painted = scr2.fb ∧ obs.before = s.scr.fb ∧
       obs.after = scr3.fb ∧ obs.shape = m ∧ obs.res = !(s.failArmed == some c.id) ∧
       obs.pos = (if c.posUpd && c.wasMoved then some (cursorPosRect scr2) else none) ∧
+      obs.copyRgn = updCopyRegion s c ∧
       s'.clients = (if s.failArmed == some c.id then s.clients.filter (fun d => d.id != c.id)
                     else s.clients.map fun d => if d.id == c.id then clientAfter s c scr2.fb else d)) := by
   unfold sendUpdate at h
-  cases hw : willSend s c with
+  cases hc : updCalled s c with
   | false =>
-    simp only [hw, Bool.not_false, if_true, Option.some.injEq, Prod.mk.injEq] at h
+    simp only [hc, Bool.not_false, if_true, Option.some.injEq, Prod.mk.injEq] at h
     exact Or.inl ⟨rfl, h.1.symm, h.2.symm⟩
   | true =>
-    simp only [hw, Bool.not_true, Bool.false_eq_true, if_false] at h
-    obtain ⟨⟨scr2, scr3, m⟩, hb, h⟩ := Option.map_eq_some_iff.mp h
-    refine Or.inr ⟨rfl, scr2, scr3, m, ?_⟩
-    cases hf : (s.failArmed == some c.id) with
-    | true =>
-      simp only [hf, if_true, Prod.mk.injEq] at h
-      obtain ⟨rfl, rfl⟩ := h
-      exact ⟨_, hb, rfl, rfl, rfl, rfl, rfl, rfl, rfl, by simp, rfl, by simp [removeClient]⟩
+    simp only [hc, Bool.not_true, Bool.false_eq_true, if_false] at h
+    cases hp : updProceeds s c with
     | false =>
-      simp only [hf, Bool.false_eq_true, if_false, Prod.mk.injEq] at h
-      obtain ⟨rfl, rfl⟩ := h
-      exact ⟨_, hb, rfl, rfl, rfl, rfl, rfl, rfl, rfl, by simp, rfl, by simp⟩
+      simp only [hp, Bool.not_false, if_true, Option.some.injEq, Prod.mk.injEq] at h
+      exact Or.inr (Or.inl ⟨rfl, rfl, h.2.symm, h.1.symm⟩)
+    | true =>
+      simp only [hp, Bool.not_true, Bool.false_eq_true, if_false] at h
+      obtain ⟨⟨scr2, scr3, m⟩, hb, h⟩ := Option.map_eq_some_iff.mp h
+      refine Or.inr (Or.inr ⟨by simp [willSend, hc, hp], scr2, scr3, m, ?_⟩)
+      cases hf : (s.failArmed == some c.id) with
+      | true =>
+        simp only [hf, if_true, Prod.mk.injEq] at h
+        obtain ⟨rfl, rfl⟩ := h
+        exact ⟨_, hb, rfl, rfl, rfl, rfl, rfl, rfl, rfl, by simp, rfl, rfl, by simp [removeClient]⟩
+      | false =>
+        simp only [hf, Bool.false_eq_true, if_false, Prod.mk.injEq] at h
+        obtain ⟨rfl, rfl⟩ := h
+        exact ⟨_, hb, rfl, rfl, rfl, rfl, rfl, rfl, rfl, by simp, rfl, rfl, by simp⟩
 
 /-- **the application's framebuffer after an update — sent, not needed, or failed — is
 bit-identical to what it was before** -/
 theorem sendUpdate_fb {v : Variant} {s s' : Sess} {c : Client} {o : Option UpdObs} (hs : s.scr.WF)
     (h : sendUpdate v s c = some (s', o)) : s'.scr.fb = s.scr.fb := by
-  rcases sendUpdate_cases h with ⟨_, rfl, _⟩ | ⟨_, scr2, scr3, m, obs, hb, hscr, _⟩
+  rcases sendUpdate_cases h with ⟨_, rfl, _⟩ | ⟨_, _, _, rfl⟩ | ⟨_, scr2, scr3, m, obs, hb, hscr, _⟩
+  · rfl
   · rfl
   · rw [hscr]; exact (bracket_restores hs hb).1
 
@@ -243,8 +254,15 @@ theorem sendUpdate_soft_ok (v : Variant) {s : Sess} {c : Client} (hs : s.scr.WF)
   unfold sendUpdate
   split
   · exact ⟨_, rfl⟩
-  · obtain ⟨r, hr⟩ := bracket_soft_ok v (s := s) (c := c) hs hsh
-    rw [hr]; exact ⟨_, rfl⟩
+  · split
+    · exact ⟨_, rfl⟩
+    · obtain ⟨r, hr⟩ := bracket_soft_ok v (s := s) (c := c) hs hsh
+      rw [hr]; exact ⟨_, rfl⟩
+
+theorem Rgn.mem_offset {W H x y : Nat} (r : Rgn) (dx dy : Int) (hx : x < W) (hy : y < H) :
+    (Rgn.offset W H r dx dy).mem W x y =
+      (decide (0 ≤ (x : Int) - dx) && decide (0 ≤ (y : Int) - dy) &&
+        r.mem W ((x : Int) - dx).toNat ((y : Int) - dy).toNat) := Rgn.mem_ofFn _ hx hy
 
 /-- **the region sent covers the old and the new cursor box**: when the pointer has moved since
 this soft-cursor client's last update, every screen pixel under the cursor bitmap at the client's
@@ -264,10 +282,16 @@ theorem updRegion_covers_boxes {s : Sess} {c : Client} {cur : Cursor} (hcur : s.
 theorem updRegion_covers_modified {s : Sess} {c : Client} {x y : Nat} (hx : x < s.scr.w) (hy : y < s.scr.h)
     (h1 : c.modified.mem s.scr.w x y = true) (h2 : c.requested.mem s.scr.w x y = true) :
     (updRegion s c).mem s.scr.w x y = true := by
+  have hsub : (Rgn.sub s.scr.w s.scr.h (upd0 s c) (updCopyRegion s c)).mem s.scr.w x y = true := by
+    unfold upd0 updCopyRegion copyLeft
+    rw [Rgn.mem_sub _ _ hx hy, Rgn.mem_and _ _ hx hy, Rgn.mem_or _ _ hx hy, Rgn.mem_and _ _ hx hy,
+      Rgn.mem_and _ _ hx hy, Rgn.mem_sub _ _ hx hy, h1, h2]
+    simp
   unfold updRegion
+  simp only []
   split
-  · rw [Rgn.mem_or _ _ hx hy, Rgn.mem_or _ _ hx hy, Rgn.mem_and _ _ hx hy, h1, h2]; rfl
-  · rw [Rgn.mem_and _ _ hx hy, h1, h2]; rfl
+  · rw [Rgn.mem_or _ _ hx hy, Rgn.mem_or _ _ hx hy, hsub]; rfl
+  · exact hsub
 
 /-! ### pointer events -/
 
@@ -294,5 +318,90 @@ theorem ptrEvent_ignored {s : Sess} {id p x y b : Nat} (h : s.pointerClient = so
     ptrEvent s id x y b = s := by
   unfold ptrEvent
   simp [h, hne]
+
+/-! ### SetEncodings: the cursor flags depend only on the SET of encodings listed -/
+
+/-- is a cursor-shape encoding listed? -/
+def hasShape (l : List Enc) : Bool := l.contains .xCursor || l.contains .richCursor
+
+/-- reading a list from arbitrary flags: every flag only depends on which encodings occur -/
+theorem foldl_encStep (l : List Enc) (f : EncFlags) :
+    l.foldl encStep f =
+      { shape := f.shape || hasShape l, useRich := f.useRich || l.contains .richCursor,
+        posUpd := f.posUpd || l.contains .pointerPos,
+        wasMoved := f.wasMoved || (!f.posUpd && l.contains .pointerPos),
+        wasChanged := f.wasChanged || hasShape l, useCopyRect := f.useCopyRect || l.contains .copyRect,
+        marked := f.marked || (!f.shape && hasShape l) } := by
+  induction l generalizing f with
+  | nil => simp [hasShape]
+  | cons e l ih =>
+    rw [List.foldl_cons, ih]
+    obtain ⟨a, b, c, d, e', g, m⟩ := f
+    cases e <;> cases a <;> cases c <;> simp [encStep, hasShape, Bool.or_comm]
+
+/-- the flags after a SetEncodings message, in closed form: cursor-shape updates iff XCursor or
+RichCursor is listed, rich iff RichCursor is, position updates iff PointerPos is listed TOGETHER
+with a cursor-shape encoding — wherever in the list each of them stands -/
+theorem encFlags_closed (w0 : Bool) (l : List Enc) :
+    encFlags w0 l =
+      { shape := hasShape l, useRich := l.contains .richCursor,
+        posUpd := l.contains .pointerPos && hasShape l,
+        wasMoved := w0 || l.contains .pointerPos, wasChanged := hasShape l,
+        useCopyRect := l.contains .copyRect, marked := hasShape l } := by
+  unfold encFlags
+  rw [foldl_encStep]
+  simp
+
+theorem contains_perm {l l' : List Enc} (h : l.Perm l') (e : Enc) : l.contains e = l'.contains e := by
+  rw [Bool.eq_iff_iff]
+  simp only [List.contains_iff_mem]
+  exact h.mem_iff
+
+theorem encFlags_perm {l l' : List Enc} (h : l.Perm l') (w0 : Bool) : encFlags w0 l = encFlags w0 l' := by
+  rw [encFlags_closed, encFlags_closed]
+  simp only [hasShape, contains_perm h]
+
+theorem clientSetEncodings_perm {l l' : List Enc} (h : l.Perm l') (v : Variant) (scr : Screen) (c : Client) :
+    clientSetEncodings v scr c l = clientSetEncodings v scr c l' := by
+  unfold clientSetEncodings
+  rw [encFlags_perm h]
+
+theorem setEncodings_perm {l l' : List Enc} (h : l.Perm l') (v : Variant) (s : Sess) (id : Nat) :
+    setEncodings v s id l = setEncodings v s id l' := by
+  unfold setEncodings
+  simp only [clientSetEncodings_perm h]
+
+/-! ### CopyRect and the painted soft cursor -/
+
+/-- what goes out as CopyRect is scheduled as a copy and not modified -/
+theorem updCopyRegion_subset {s : Sess} {c : Client} {x y : Nat} (hx : x < s.scr.w) (hy : y < s.scr.h)
+    (h : (updCopyRegion s c).mem s.scr.w x y = true) :
+    c.copy.mem s.scr.w x y = true ∧ c.modified.mem s.scr.w x y = false := by
+  unfold updCopyRegion copyLeft at h
+  rw [Rgn.mem_and _ _ hx hy, Rgn.mem_and _ _ hx hy, Rgn.mem_sub _ _ hx hy] at h
+  simp only [Bool.and_eq_true, Bool.not_eq_true'] at h
+  exact ⟨h.1.1.1, h.1.1.2⟩
+
+/-- rfbScheduleCopyRegion for a soft-cursor client that accepts CopyRect: every pixel of the
+scheduled copy whose DESTINATION or whose SOURCE lies under the cursor as painted in the client's
+picture (the unclipped cursor bitmap at `cl->cursorX/Y`) is marked modified — it will be sent as
+pixels, not copied -/
+theorem scheduleCopy_marks_cursor {scr : Screen} {c : Client} {dst : Rgn} {dx dy : Int} {cur : Cursor}
+    (hcr : c.useCopyRect = true) (hsh : c.shape = false) (hcur : scr.cursor = some cur)
+    {x y : Nat} (hx : x < scr.w) (hy : y < scr.h)
+    (hcopy : (clientScheduleCopy scr c dst dx dy).copy.mem scr.w x y = true)
+    (hbox : rawBox cur c.curX c.curY x y = true ∨
+            rawBox cur c.curX c.curY ((x : Int) - dx) ((y : Int) - dy) = true) :
+    (clientScheduleCopy scr c dst dx dy).modified.mem scr.w x y = true := by
+  unfold clientScheduleCopy at hcopy ⊢
+  simp only [hcr, hsh, hcur, Bool.not_true, Bool.false_eq_true, if_false] at hcopy ⊢
+  generalize (if c.copy.nonempty = true then
+      if (c.copyDX != dx || c.copyDY != dy) = true then (Rgn.or scr.w scr.h c.modified c.copy, Rgn.empty scr.w scr.h)
+      else (Rgn.or scr.w scr.h c.modified (Rgn.and scr.w scr.h (Rgn.offset scr.w scr.h dst (-dx) (-dy)) c.copy), c.copy)
+    else (c.modified, c.copy)) = pr at hcopy ⊢
+  obtain ⟨m1, cp1⟩ := pr
+  simp only [] at hcopy ⊢
+  rw [Rgn.mem_or _ _ hx hy, Rgn.mem_or _ _ hx hy, Rgn.mem_ofFn _ hx hy, Rgn.mem_ofFn _ hx hy, hcopy]
+  rcases hbox with h | h <;> simp [h]
 
 end VncModel.Cursor
